@@ -216,7 +216,9 @@ def build_and_audit(prop: str, extra_targets=()) -> BuildResult:
             res.driver_ok = False
             res.ok = False
             res.log += r.stdout[-4000:] + r.stderr[-2000:]
-        targets = [f"MokapotVerif.Props.{prop}", *extra_targets]
+        targets = [f"MokapotVerif.Props.{pf.stem}"
+                   for pf in sorted((LEAN / "MokapotVerif" / "Props").glob(f"{prop}*.lean"))] or [f"MokapotVerif.Props.{prop}"]
+        targets += list(extra_targets)
         r = subprocess.run(["lake", "build", *targets], cwd=LEAN, capture_output=True, text=True)
         if r.returncode != 0:
             res.ok = False
@@ -254,8 +256,11 @@ def build_and_audit(prop: str, extra_targets=()) -> BuildResult:
                     for ns in re.findall(r"^namespace\s+(\S+)", strip_comments(pf.read_text()), re.M):
                         if ns not in spaces:
                             spaces.append(ns)
+                imports = "".join(
+                    f"import MokapotVerif.Props.{pf.stem}\n"
+                    for pf in sorted((LEAN / "MokapotVerif" / "Props").glob(f"{prop}*.lean")))
                 af.write_text(
-                    f"import MokapotVerif.Props.{prop}\n"
+                    imports
                     + "".join(f"open {ns}\n" for ns in (spaces or ["Mk"]))
                     + "".join(f"#print axioms {n}\n" for n in names)
                 )
